@@ -206,3 +206,26 @@ Proof.
     + eapply (repairs_count_le cs F F'); eauto.
     + eapply (repairs_count_le cs F' F); eauto. apply Permutation_sym. exact HP.
 Qed.
+
+Theorem every_repair_found : forall cs F S, NoDup F -> maxrepair (violates cs) F S ->
+  exists R S', compute_repairs (violates cs) F = Some R /\ In S' R /\ seteq S' S.
+Proof.
+  intros cs F S ND HM. destruct (repairs_exact cs F ND) as [R [HR [H1 H2]]].
+  destruct (exact_rep_of (violates cs) (violates_monotone cs) F R S (conj H1 H2) HM) as [S' [G1 G2]].
+  exists R, S'. auto.
+Qed.
+
+Theorem unconstrained_fact_answered : forall cs F q f b, NoDup F -> In f F ->
+  (forall c p, In c cs -> In p c -> match_pat p f [] = None) ->
+  match_pat q f [] = Some b ->
+  exists A, query_with_repairs cs F q = Some A /\ In b A.
+Proof.
+  intros cs F q f b ND Hf Hu Hm. eapply conflict_free_answered; eauto.
+  apply unmatched_conflict_free. exact Hu.
+Qed.
+
+Theorem all_maximal_found : forall (cs : list constraint) (F : list fact), NoDup F ->
+  exists C, candidates (violates cs) F = Some C /\
+    (forall S, In S C -> In S (sublists F) /\ violates cs S = false) /\
+    (forall M, maxrepair (violates cs) F M -> exists R0, In R0 C /\ seteq R0 M).
+Proof. intros cs F ND. exact (candidates_ok (violates cs) (violates_monotone cs) F ND). Qed.
